@@ -66,6 +66,7 @@ func (x *Exec) wakeRecv(g *G, caseIdx int, val Value, ok bool) {
 	fr.visits = nil
 	g.wait = wNone
 	g.wcases = nil
+	x.noteSync(g)
 }
 
 func (x *Exec) wakeSend(g *G, caseIdx int) Value {
@@ -86,6 +87,7 @@ func (x *Exec) wakeSend(g *G, caseIdx int) Value {
 	g.wait = wNone
 	g.wcases = nil
 	g.wval = nil
+	x.noteSync(g)
 	return v
 }
 
@@ -285,7 +287,23 @@ func (x *Exec) execSelect(g *G, fr *Frame, in *ssa.Select) bool {
 }
 
 // maybePreempt is called after a completed synchronisation operation.
+func (x *Exec) noteSync(g *G) {
+	g.syncOps++
+	if g.stallAfter >= 0 && g.syncOps >= g.stallAfter {
+		g.stalled = true
+	}
+}
+
 func (x *Exec) maybePreempt(g *G) bool {
+	x.noteSync(g)
+	if g.stalled {
+		for _, o := range x.gs {
+			if o != g && o.runnable() && !o.stalled {
+				x.forceNext = o
+				return true
+			}
+		}
+	}
 	if x.preemptBudget <= 0 {
 		return false
 	}
@@ -323,6 +341,20 @@ func (x *Exec) schedule(main *G) {
 		}
 		if main.done {
 			return
+		}
+		if len(run) > 1 {
+			var live []*G
+			for _, g := range run {
+				if !g.stalled {
+					live = append(live, g)
+				}
+			}
+			if len(live) > 0 && len(live) < len(run) {
+				run = live
+				if x.forceNext != nil && x.forceNext.stalled {
+					x.forceNext = nil
+				}
+			}
 		}
 		if len(run) == 0 {
 			if x.fireTimer() {
